@@ -421,6 +421,12 @@ GLUE_TEMPLATES = [
     ("except-expr-later-raises", "def f():\n    try:\n        raise E1()\n    except E1:\n        T(2)\n    except undefined_name_zz:\n        T(4)\n    return 5\n"),
     ("except-expr-raises-first", "def f():\n    try:\n        raise E1()\n    except RX(1):\n        T(2)\n    except E1:\n        T(3)\n    return 5\n"),
     ("except-expr-not-evaluated-without-exception", "def f():\n    try:\n        T(1)\n    except TX(2, E1):\n        T(3)\n    return 5\n"),
+    ("assert-message-lazy", "def f():\n    assert D(1), TX(2, 'm')\n    try:\n        assert D(3), TX(4, 'm2')\n    except AssertionError as e:\n        return e.args\n    return 5\n", [1, 0]),
+    ("assert-message-raises", "def f():\n    try:\n        assert D(1), RX(2)\n    except E2:\n        return 3\n    return 4\n", [0]),
+    ("return-in-finally-overrides", "def f():\n    for _ in range(2):\n        try:\n            raise E1()\n        finally:\n            T(1)\n            continue\n    try:\n        return 2\n    finally:\n        T(3)\n        return 4\n", []),
+    ("nested-finally-order", "def f():\n    try:\n        try:\n            raise E1()\n        finally:\n            T(1)\n            try:\n                raise E2()\n            except E2:\n                T(2)\n    except E1:\n        T(3)\n    return 4\n", []),
+    ("loop-var-after-loop", "def f():\n    for i in [1, 2, 3]:\n        if i == 2:\n            break\n    else:\n        T(9)\n    return i\n", []),
+    ("while-else-break-in-try", "def f():\n    n = 0\n    while n < 3:\n        n += 1\n        try:\n            if n == 2:\n                break\n        finally:\n            T(n)\n    else:\n        T(9)\n    return n\n", []),
     ("clean-exit-raises-suppressing", "def f():\n    with CMX(1, E2, True):\n        T(1)\n    return 2\n"),
     ("clean-exit-raises-on-return", "def f():\n    with CMX(1, E2, True):\n        return 1\n    return 2\n"),
     ("clean-exit-raises-on-break", "def f():\n    for _ in range(2):\n        with CMX(1, E2, True):\n            break\n    else:\n        T(9)\n    return 2\n"),
@@ -431,8 +437,9 @@ GLUE_TEMPLATES = [
 
 def glue_cases(rng, tier):
     out, seen = [], set()
-    for name, src in GLUE_TEMPLATES:
-        out.append(Case({"src": src, "tape": [], "family": "G", "features": ["glue", name]}, None, tags=["G", "glue", name]))
+    for t in GLUE_TEMPLATES:
+        name, src, tape = t[0], t[1], (t[2] if len(t) > 2 else [])
+        out.append(Case({"src": src, "tape": tape, "family": "G", "features": ["glue", name]}, None, tags=["G", "glue", name]))
     for _ in range(160 if tier == "quick" else 2000):
         src = glue_random(rng) if rng.random() < 0.55 else glue_with_random(rng)
         if src in seen:
